@@ -98,6 +98,106 @@ def facts(c):
     return True
 
 
+class C08Check(Check):
+    """same pipeline; a stronger shrinker so that a known pattern is only recognised in its 1-minimal canonical form"""
+
+    def shrink(self, case_ops, hbin, exe, exe_args, budget=300):
+        cur = Check.shrink(self, case_ops, hbin, exe, exe_args, budget=budget)
+        runs = 0
+
+        def eliminate(cur):
+            nonlocal runs
+            changed = True
+            while changed and runs < 400:
+                changed = False
+                for i in range(len(cur)):
+                    cand = cur[:i] + cur[i + 1:]
+                    runs += 1
+                    if cand and self._fails(cand, hbin, exe, exe_args):
+                        cur = cand
+                        changed = True
+                        break
+            return cur
+        cur = eliminate(cur)
+        # checkpoint indices: `revert N` pins N+1 checkpoint ops; drop the j-th checkpoint and renumber the reverts after it
+        progress = True
+        while progress and runs < 600:
+            progress = False
+            cps = [i for i, op in enumerate(cur) if op == "checkpoint"]
+            for j, pos in enumerate(cps):
+                cand, valid = [], True
+                for i, op in enumerate(cur):
+                    if i == pos:
+                        continue
+                    m = re.match(r"revert (\d+)$", op)
+                    if m:
+                        n = int(m.group(1))
+                        if n == j:
+                            valid = False
+                            break
+                        cand.append(f"revert {n - 1}" if n > j else op)
+                    else:
+                        cand.append(op)
+                if not valid:
+                    continue
+                runs += 1
+                if self._fails(cand, hbin, exe, exe_args):
+                    cur = eliminate(cand)
+                    progress = True
+                    break
+        # canonical observer: if the failure is also visible through a plain `len`, prefer that form
+        if cur and cur[-1] != "len":
+            cand = cur[:-1] + ["len"]
+            if self._fails(cand, hbin, exe, exe_args):
+                cur = eliminate(cand)
+        return cur
+
+
+def _tok_len(tok):
+    if tok == "-":
+        return 0
+    if "*" in tok:
+        h, n = tok.split("*")
+        return (0 if h == "-" else len(h) // 2) * int(n)
+    return len(tok) // 2
+
+
+def _write_of(line):
+    """(kind, key, value token or None) of a write op line, looking through the iterw / gsstale wrappers"""
+    w = line.split()
+    if w and w[0] == "iterw":
+        w = w[2:]
+    elif w and w[0] == "gsstale":
+        w = w[2:]
+    if len(w) >= 2 and w[0] in ("set", "del", "upd"):
+        return w[0], w[1], (w[2] if w[0] == "set" and len(w) > 2 else None)
+    return None
+
+
+def narrow(c):
+    """known_findings.json holds the op-line shapes of the three known patterns (necessary condition).  Here the exact
+    side conditions are checked on the shrunk case; a case that has the shape but not the side conditions gets a marker
+    line appended, which makes it longer than the entry's max_len, so it is reported as a VIOLATION."""
+    for p in c.problems:
+        if p.kind != "property":
+            continue
+        cs = p.case
+        ok = True
+        if len(cs) == 4 and cs[1] == "checkpoint" and cs[3].startswith("revert "):
+            a, b = _write_of(cs[0]), _write_of(cs[2])
+            ok = bool(a and b and a[0] == "set" and b[0] == "set" and a[1] == b[1] and a[2] and b[2]
+                      and _tok_len(a[2]) == _tok_len(b[2]) and _tok_len(a[2]) > 0)
+        elif len(cs) == 3 and cs[2] == "len":
+            a, b = _write_of(cs[0]), _write_of(cs[1])
+            m = re.search(r"impl: art=(\d+) rbt=(\d+) \|", p.detail)
+            ok = bool(a and b and a[0] == "upd" and a[1] == b[1] and m and int(m.group(1)) == int(m.group(2)) + 1)
+        elif len(cs) == 2 and cs[1].startswith("gsiter "):
+            a = _write_of(cs[0])
+            ok = bool(a and a[1] == "-")
+        if not ok:
+            p.case = cs + ["# side conditions of the known pattern do not hold"]
+
+
 def reclassify(c):
     """A shrunk case whose implementation line shows the two trees disagreeing with each other (`art=… rbt=…`) or a
     per-tree oracle verdict `FAIL` is a concrete failing input of C08 (observational equivalence / undo oracle) on the
@@ -109,7 +209,7 @@ def reclassify(c):
 
 
 def run(a):
-    c = Check(PID, a.tier, a.seed)
+    c = C08Check(PID, a.tier, a.seed)
     c.cov["rule"] = ("every op line is executed on the ART buffer and on the RBT buffer (result `art=… rbt=…`, collapsed when equal) and on the Lean "
                      "VLog model; cases = op sequences from one `reset`; exhaustive short sequences over a 6-key pool + seeded random sequences over an "
                      "adversarial key pool; property ops: cleanup/revert view oracle, snapshot-ignores-staged oracle, evaluated per tree")
@@ -129,6 +229,7 @@ def run(a):
                 if m:
                     c.diff(ops, impl, m, stateful=True, hbin=hbin, exe=exe)
                     reclassify(c)
+                    narrow(c)
                     c.cov["programs"] = sum(1 for l in open(ops) if l.startswith("# case"))
                     c.cov["exhaustive"] = "depth<=3 over 6-key pool (quick) / depth<=4 (thorough), see input_distribution"
         c.prove("ClientGoVerif.Props.C08")
@@ -136,7 +237,7 @@ def run(a):
 
 
 def replay(a):
-    c = Check(PID, a.tier, a.seed)
+    c = C08Check(PID, a.tier, a.seed)
     rp = json.load(open(a.replay))
     cases = [p["case"] for p in rp["problems"] if p["kind"] in ("property", "correspondence") and p["case"]]
     facts(c)
@@ -159,4 +260,5 @@ def replay(a):
         print(f"{o}\n   impl : {i}\n   model: {mm}")
     c.diff(ops, impl, m, stateful=True, hbin=hbin, exe=exe)
     reclassify(c)
+    narrow(c)
     return c.finish()
